@@ -144,6 +144,75 @@ class Determinism(Part):
         return None
 
 
+class EngineObjects(Part):
+    """Objects that the engine hands to expressions (attrs, repeat, default,
+    template, macros, nothing, modules ...) and that a template may mutate or
+    keep: whatever one rendering does with them must not be visible to the
+    next rendering of the same or of another instance."""
+    name = "engineobjects"
+    examples = {"quick": 120, "thorough": 2000}
+
+    MUTATIONS = {
+        # name -> (expression that mutates / records, probe expression)
+        "attrs_setitem": ("attrs.__setitem__('n', attrs.get('n', 0) + 1)",
+                          "attrs.get('n')"),
+        "attrs_setdefault_list": ("attrs.setdefault('l', []).append(1)",
+                                  "len(attrs.get('l', ()))"),
+        "attrs_pop": ("attrs.pop('class', None)", "sorted(attrs)"),
+        "attrs_update": ("attrs.update(extra=1)", "sorted(attrs)"),
+        "repeat_store": ("repeat.__setitem__('zz', 5)",
+                         "repeat['zz'] | 'none'"),
+        "control": ("None", "sorted(attrs)"),
+    }
+
+    def strategy(self, tier):
+        return st.fixed_dictionaries({
+            "kind": st.sampled_from(sorted(self.MUTATIONS)),
+            "static": st.sampled_from(["", ' class="c"',
+                                       ' class="c" id="i"']),
+            "renders": st.integers(2, 4),
+            "fresh_between": st.booleans(),
+        })
+
+    def source(self, case):
+        mut, probe = self.MUTATIONS[case["kind"]]
+        # the probe stands BEFORE the mutation: the first rendering shows the
+        # pristine state, every later one must show the same
+        return ('<i%s tal:define="before %s; dummy %s">${before}</i>'
+                % (case["static"], probe, mut))
+
+    def nontrivial(self, case):
+        return case["kind"] != "control"
+
+    def labels(self, case):
+        yield case["kind"].split("_")[0]
+
+    def sample(self, case):
+        return {"source": self.source(case)}
+
+    def oracle(self, case):
+        from chameleon import PageTemplate
+        src = self.source(case)
+        o = run(PageTemplate, src)
+        if not o.ok:
+            raise HarnessError("scaffold does not compile: %s" % o.brief())
+        t = o.value
+        outs = []
+        for k in range(case["renders"]):
+            r = run(t.render)
+            outs.append(("out", r.value) if r.ok else ("exc", r.exc_name))
+            if case["fresh_between"]:
+                run(PageTemplate(src).render)
+        if len(set(outs)) != 1:
+            b = "engineobjects:K14" if case["kind"].startswith("attrs") \
+                else "engineobjects:renderings differ"
+            return Mismatch(b, {"source": src, "outputs": outs})
+        return None
+
+    def known(self, case, mismatch):
+        return "K14" if mismatch.bucket == "engineobjects:K14" else None
+
+
 # ---------------------------------------------------------------------------
 
 CHILD = r"""
@@ -153,9 +222,13 @@ from vlib import tmodel, values, exprs
 from chameleon import PageTemplate
 cases = json.load(open(sys.argv[1]))
 out = []
+def observing_translate(msgid, mapping=None, default=None, **kw):
+    # shows everything it is given, in the order in which it is given
+    return "{%%s|%%s|%%s}" %% (msgid, list((mapping or {}).items()), default)
 for c in cases:
     try:
-        t = PageTemplate(c["source"])
+        cfg = {"translate": observing_translate} if c.get("i18n") else {}
+        t = PageTemplate(c["source"], **cfg)
         env = values.env(c["bindings"])
         log = []
         env["rec"], env["boom"] = exprs.make_callables(log)
@@ -214,6 +287,18 @@ class HashSeed(Stage):
             cases.append({"source": tmodel.serialize(c["nodes"]).text(),
                           "bindings": c["bindings"]})
         go()
+        # translations with several named parts: the mapping handed to the
+        # translation function must not depend on the hashing of strings
+        import random
+        rnd = random.Random(seed)
+        pool = ["zeta", "alpha", "mid", "n1", "name", "who", "count", "x",
+                "first_name", "b", "day", "month"]
+        for _ in range(max(8, n // 16)):
+            names = rnd.sample(pool, rnd.randint(2, 5))
+            inner = " and ".join('<b i18n:name="%s">%s</b>' % (nm, nm.upper())
+                                 for nm in names)
+            cases.append({"source": '<p i18n:translate="">Dear %s.</p>'
+                          % inner, "bindings": {}, "i18n": True})
         return cases
 
     def oracle(self, case):
@@ -246,7 +331,8 @@ class HashSeed(Stage):
         return {
             "evaluations": len(cases) * 2,
             "nontrivial_ids": [str(i) for i, c in enumerate(cases)
-                               if "tal:attributes" in c["source"]],
+                               if "tal:attributes" in c["source"] or
+                               c.get("i18n")],
             "failures": failures[:3], "harness": harness[:2],
             "samples": cases[:1],
             "info": {"cases": len(cases), "hash_seeds": [1, 4242]},
@@ -523,7 +609,7 @@ CHECK = Check(
           "inside cook / cook_check / read / load / macros / include, sampled "
           "(quick) or all (thorough) double-preemption schedules and drawn "
           "3-thread schedules; every schedule is a distinct non-trivial case"),
-    parts=[Determinism()],
+    parts=[Determinism(), EngineObjects()],
     stages=[HashSeed(), FreeThreads(), Schedules()],
     assumptions=[
         "preemption inside C-level calls or between the bytecodes of one "
